@@ -32,6 +32,9 @@ def units(tier):
     us = [{"kind": "terms", "terms": [[t, tn, L] for t, tn, L in ch]} for ch in chunks(terms_for(tier), 8 if tier == "quick" else 4)]
     for name in GALLERY:
         us.append({"kind": "gallery", "name": name})
+    from .c03 import TEXT_ENCODINGS
+    for enc in TEXT_ENCODINGS:
+        us.append({"kind": "text", "encoding": enc})
     return us
 
 
@@ -250,6 +253,23 @@ def run_unit(unit, tier):
     if unit["kind"] == "terms":
         for t, tn, L in unit["terms"]:
             run_term(t, tn, L, tier, r)
+    elif unit["kind"] == "text":
+        # the text axis (see c03.TEXTS / RAW_TEXT): every string framing on every well-formed, borderline and malformed sequence
+        from .c03 import text_space
+        terms, frame, value_for, raws = text_space(unit["encoding"])
+        for t in terms:
+            d = T.mk(t)
+            tsig = T.sig_of(t)
+            for raw in raws:
+                data = frame(t, raw)
+                if data is None:
+                    continue
+                r.states += 1
+                oc, vs = check_input(T.show(t), d, data, {}, tsig, {"term": t, "data": data, "kw": {}})
+                r.case(nontrivial=oc not in ("rejected",), outcome=oc, transitions=3, validated=1)
+                for v in vs:
+                    r.violation(v["sig"], v["case"], v["detail"])
+        r.sample({"text_encoding": unit["encoding"], "framings": len(terms), "raw_sequences": len(raws)})
     else:
         run_gallery(unit["name"], tier, r)
     return r
